@@ -3,8 +3,11 @@ package main
 // Generated documents: every validation branch of newSubnet / loadByteArray / configChanged.
 
 import (
+	"fmt"
 	"net"
 	"net/netip"
+	"os"
+	"strings"
 	"time"
 
 	"github.com/irai/packet"
@@ -195,4 +198,79 @@ func firstWord(s string) string {
 		}
 	}
 	return s
+}
+
+// bigDocs: restarts on LARGE lease files (the code has no size limit, so neither has the model): an ordinary table
+// of 230 clients (> 64 KiB of YAML) in the quick tier; in the thorough tier files of about 16/32/64/128 KiB with
+// client ids of 1..255 bytes (incl. 0x00 and 0xff bytes) and long host names.  Each document is loaded by the real
+// constructor (kind newt), and so is the file the constructor re-saves (the real saveConfig on the big table).
+func bigDocs(r *lib.Run, rng *lib.Rand) {
+	type spec struct {
+		leases  int
+		longCID bool
+		target  int // stop adding leases at about this many bytes (0: use leases)
+	}
+	specs := []spec{{leases: 230}}
+	if r.Thorough() {
+		specs = append(specs, spec{longCID: true, target: 16 << 10}, spec{longCID: true, target: 32 << 10},
+			spec{longCID: true, target: 64 << 10}, spec{longCID: true, target: 128 << 10}, spec{leases: 250}, spec{longCID: true, target: 65600})
+	}
+	c := stdCfg
+	s := sessionFor(c.nic, "-")
+	for _, sp := range specs {
+		n1, n2 := goodNets(c)
+		d := docT{Net1: &n1, Net2: &n2}
+		size := 0
+		for i := 0; (sp.target == 0 && i < sp.leases) || (sp.target > 0 && size < sp.target && i < 250); i++ {
+			l := dhcp.Lease{State: dhcp.StateAllocated}
+			l.Addr.MAC = net.HardwareAddr{0x02, 0, 0, 1, byte(i >> 8), byte(i)}
+			l.Addr.IP = netip.AddrFrom4([4]byte{192, 168, 0, byte(2 + i)})
+			l.ClientID = append([]byte{1}, l.Addr.MAC...)
+			l.Name = fmt.Sprintf("host-%d.home.lan", i)
+			l.XID = []byte{0, 0, byte(0x10 + i>>8), byte(i)} // as a lease acknowledged through DISCOVER/REQUEST carries them
+			l.OfferExpiry = time.Unix(1789990000+int64(i), 0).UTC()
+			if sp.longCID {
+				l.ClientID = rng.Bytes(1 + rng.Intn(255))
+				l.ClientID[0] = byte(i) // distinct keys
+				if len(l.ClientID) > 2 {
+					l.ClientID[1], l.ClientID[len(l.ClientID)-1] = 0x00, 0xff
+				}
+				l.Name = strings.Repeat("n", 1+rng.Intn(200))
+			}
+			l.DHCPExpiry = time.Unix(1790000000+int64(i), int64(rng.Intn(1000000000))).UTC()
+			d.Leases = append(d.Leases, l)
+			size += 60 + 8*len(l.ClientID) + len(l.Name) + 160
+		}
+		body, err := yaml.Marshal(&d)
+		if err != nil {
+			continue
+		}
+		text := withSum(body)
+		run := func(text []byte, what string) []byte {
+			toks := docTokens(text)
+			obs := r.Do("newt", append([]string{c.tok(), "-", lib.Hex(text)}, toks...)...)
+			r.Stat("big."+what, 1)
+			r.Stat("big.bytes."+what, int64(len(text)))
+			// Go-side oracle: every lease of the document is restored
+			n := 0
+			if f := strings.Fields(obs); len(f) == 4 && f[3] != "-" {
+				n = len(strings.Split(f[3], ";"))
+			}
+			if n != len(d.Leases) {
+				r.Viol("restart-large-table-lost", fmt.Sprintf("%s: lease file of %d bytes with %d leases, %d restored", what, len(text), len(d.Leases), n), "")
+			}
+			// the file the constructor re-saved
+			fname := tmpName()
+			defer os.Remove(fname)
+			os.WriteFile(fname, text, 0644)
+			if b := construct(s, c, fname); b.h != nil {
+				out, _ := os.ReadFile(fname)
+				return out
+			}
+			return nil
+		}
+		if resaved := run(text, "generated"); resaved != nil {
+			run(resaved, "resaved-by-saveConfig")
+		}
+	}
 }
